@@ -777,8 +777,7 @@ class Formatter:
                 if "if exists" in json:
                     acc.append("IF EXISTS")
                 acc.append("VALUES")
-                for row in values:
-                    acc.append("(" + ", ".join(self._literal(row)) + ")")
+                acc.append(",\n".join("(" + ", ".join(self._literal(v) for v in listwrap(row)) + ")" for row in values))
 
         else:
             if json.get("if exists"):
